@@ -299,7 +299,7 @@ type archiveableDataBlock struct {
 	dataBlock
 	earliestTime     time.Time
 	requestedSamples int
-	complete         chan struct{}
+	complete         chan dataBlock // the filled block is handed to the file-writing goroutine here
 	active           bool
 }
 
@@ -414,8 +414,10 @@ func (ds *AnySource) archiveNewDataBlock(block *dataBlock) {
 
 	requestFilled := ab.nSamp >= ab.requestedSamples
 	if requestFilled {
-		close(ab.complete)
+		// Hand a copy of the filled block to the goroutine that writes the file. From here on that
+		// goroutine does not look at ds.archiveBlock, which the next request is free to reuse.
 		ab.active = false
+		ab.complete <- ab.dataBlock
 	}
 }
 
@@ -1091,11 +1093,10 @@ func (ds *AnySource) StopTriggerCoupling() error {
 	return ds.broker.StopTriggerCoupling()
 }
 
-func (ds *AnySource) writeNPZData(file *os.File) error {
+func (ds *AnySource) writeNPZData(file *os.File, ab dataBlock) error {
 	wz := npz.NewWriter(file)
 	defer wz.Close()
 
-	ab := ds.archiveBlock
 	channelNames := ds.ChannelNames()
 	firstFrame := make([]int64, len(ab.segments))
 	for i, stream := range ab.segments {
@@ -1126,14 +1127,15 @@ func (ds *AnySource) ArchiveDataBlock(N int, file *os.File, finalName string) er
 	ds.archiveBlock.earliestTime = time.Now()
 	ds.archiveBlock.requestedSamples = N
 	ds.archiveBlock.segments = nil
-	ds.archiveBlock.complete = make(chan struct{})
+	complete := make(chan dataBlock, 1)
+	ds.archiveBlock.complete = complete
 	ds.archiveBlock.active = true
 
-	// Launch this goroutine, which will execute when the ds.archiveBlock.complete channel is closed
+	// Launch this goroutine, which will execute when the filled block arrives on the complete channel
 	go func() {
 		// When the archiveBlock is filled, write to npz file.
-		<-ds.archiveBlock.complete
-		if err := ds.writeNPZData(file); err != nil {
+		filled := <-complete
+		if err := ds.writeNPZData(file, filled); err != nil {
 			file.Close()
 		}
 
